@@ -112,7 +112,42 @@ def _break_false_branch_ignored():
     rep._get_line_to_branch_coverage = line_to_branch
 
 
+def _break_line_annotation_either_or():
+    """A line annotation takes EITHER the branch-less code objects OR the predicates anchored at the line (elif instead of if)."""
+    import pynguin.utils.report as rep
+
+    def ann(lineno, code_object_coverage, predicate_coverage):
+        total = rep.CoverageEntry()
+        branches = rep.CoverageEntry()
+        branchless = rep.CoverageEntry()
+        if lineno in code_object_coverage:
+            branchless = code_object_coverage[lineno]
+            total += branchless
+        elif lineno in predicate_coverage:
+            branches = predicate_coverage[lineno]
+            total += branches
+        return rep.LineAnnotation(lineno, total, branches, branchless, rep.CoverageEntry())
+
+    rep._get_line_annotations_for_branch_coverage = ann
+
+
+def _break_one_code_object_per_line():
+    """Only one branch-less code object is remembered per source line (dict assignment instead of +=)."""
+    import pynguin.utils.report as rep
+
+    def per_line(subject_properties, trace):
+        out = {}
+        for code in subject_properties.branch_less_code_objects:
+            lineno = subject_properties.existing_code_objects[code].code_object.co_firstlineno
+            out[lineno] = rep.CoverageEntry(covered=int(code in trace.executed_code_objects), existing=1)
+        return out
+
+    rep._get_line_to_branchless_code_object_coverage = per_line
+
+
 BREAKS = {
+    "line-annotation-either-or": _break_line_annotation_either_or,
+    "one-code-object-per-line": _break_one_code_object_per_line,
     "branchless-twice": _break_branchless_twice,
     "branchless-twice-totals-only": _break_branchless_twice_totals_only,
     "line-ids-as-numbers": _break_line_ids_as_numbers,
